@@ -123,6 +123,19 @@ extern "C" void verif_harness() {
     if (what == 0) SYM_ASSERT_EQ(nd->getFirstOrderDerivative("x"), f->poly(x1, y1, 1, 0), "one-sided first derivative differs from the analytic one on a linear function");
     else SYM_ASSERT_EQ(nd->getSecondOrderDerivative("x"), f->poly(x1, y1, 2, 0), "one-sided second derivative differs from the analytic one on a quadratic");
     SYM_ASSERT(f->getParameterValue("x") == x1 && f->getParameterValue("y") == y1, "wrapped function is not left at the requested point next to a constraint");
+  } else if (which == 5) {
+    // ---- partial update: a full update at (x1,y1), then y alone is changed through one of the entry points; derivatives must be those at the current point (x1,y2) ----
+    int deg = scheme == 0 ? 1 : (scheme == 1 ? 2 : 3); if (scheme == 0) deg = 2;   /* the two-point scheme is exact on x.y although not on squares: the polynomial below has no pure squares for it */
+    Box none{false, 0, 0}; double x1 = anyIn("x1", none), y1 = anyIn("y1", none), y2 = anyIn("y2", none); SYM_ASSUME(!(y2 == y1) && !(x1 == 1) && !(y1 == 1));
+    auto f = mkFn(deg, none, none, 1.0, 1.0); if (scheme == 0) { f->c[2][0] = 0; f->c[0][2] = 0; }
+    auto nd = mkScheme(scheme, f); nd->setInterval(h); nd->setParametersToDerivate(selection(__sym_choose("selected", 2, 3)));
+    ParameterList pl; pl.addParameter(Parameter("x", x1)); pl.addParameter(Parameter("y", y1)); nd->setParameters(pl);
+    int how = __sym_choose("entry", 0, 2); ParameterList one; one.addParameter(Parameter("y", y2));
+    if (how == 0) nd->setParameterValue("y", y2); else if (how == 1) nd->matchParametersValues(one); else nd->setParametersValues(one);
+    SYM_ASSERT(f->getParameterValue("x") == x1 && f->getParameterValue("y") == y2, "wrapped function is not left at the requested point after a partial update");
+    SYM_ASSERT_EQ(nd->getValue(), f->poly(x1, y2, 0, 0), "wrapper does not report the value at the current point after a partial update");
+    SYM_ASSERT_EQ(nd->getFirstOrderDerivative("y"), f->poly(x1, y2, 0, 1), "derivative in the updated variable is not that of the current point");
+    SYM_ASSERT_EQ(nd->getFirstOrderDerivative("x"), f->poly(x1, y2, 1, 0), "after a partial update the derivative in a variable that was not part of the update is stale (that of the previous point)");
   } else if (which == 4) {
     // ---- three variables: every cross derivative exact on cubic polynomials, first/second derivatives still exact, function left at the requested point ----
     if (scheme != 1) return;
